@@ -274,9 +274,10 @@ class Filtration(SimplicialComplex):
         i = self._appears[s]
         del self._appears[s]
         self._includes[i].remove(s)
-        if len(self._includes[i]) == 0:
+        if len(self._includes[i]) == 0 and i != self.getIndex():
             # last simplex at this index. delete the index
             # from the inclusion list and the max orders list
+            # (unless it's the current index, which always exists)
             del self._includes[i]
             del self._maxOrders[i]
 
